@@ -173,6 +173,8 @@ def gen_history(rng, cfg, length):
                                   ("eom_pulse", ch, pick(rng, [16, 100, 101, 52]), pick(rng, [0, 1.0, math.pi]), pick(rng, ["min-delay", "no-delay"]), pick(rng, [True, False])),
                                   ("disable_eom", ch, pick(rng, [True, False])),
                                   ("modify_eom", ch, pick(rng, [2.0, 8.0]), pick(rng, [0.0, 4.0]), pick(rng, [0.0, 15.0]), pick(rng, [True, False]))]))
+        elif r < 0.93:
+            ops.append(("measure", "ground-rydberg" if cfg["channels"][ch]["kind"] == "rydberg" else "digital"))
         elif r < 0.96:
             ops.append(("estimate", gen_pulse_spec(rng), ch, pick(rng, ["min-delay", "no-delay", "wait-for-all"])))
         else:
@@ -208,6 +210,8 @@ def apply_op(seq, op, ctx):
         seq.disable_eom_mode(op[1], correct_phase_drift=op[2])
     elif k == "modify_eom":
         seq.modify_eom_setpoint(op[1], op[2], op[3], optimal_detuning_off=op[4], correct_phase_drift=op[5])
+    elif k == "measure":
+        seq.measure(op[1])
     elif k == "estimate":
         ctx["estimate"] = seq.estimate_added_delay(make_pulse(op[1]), op[2], protocol=op[3])
     elif k == "readonly":
